@@ -37,6 +37,35 @@ CLAIMED = {
         "technique": "Coq proof (any sorted permutation, list induction) + Spec predicate evaluated on "
                      "implementation traces by vm_compute",
     },
+    "C01": {
+        "text": "Theorem C01_admit_iff_fits (Props/C01.v) over the World model (entry pipeline: node lookup, "
+                "flow slot with RejectChecker on a direct threshold over the default metric / a reused window / "
+                "a private ring, statistics recorded after the checks, exits): for every configuration with a "
+                "servable geometry, every rule set on any resources, every history of builds, exits and clock "
+                "advances of any length, a build is admitted iff for every rule the tokens admitted in that "
+                "rule's current window plus the batch do not exceed the threshold, and a rejection names a rule "
+                "that does not fit. Proved by an invariant tying every ring to the ghost history of outcomes and "
+                "the C02 window theorem. The same predicate is evaluated on implementation traces.",
+        "design_ref": "DESIGN.md §6 C01, Appendix A.2",
+        "note": "Trusted: Coq kernel + VM; thresholds are modelled as exact dyadic values and the f64 test "
+                "`cur + batch > threshold` as an exact comparison (integers below 2^53); hand-written model "
+                "validated by differential runs through EntryBuilder on the virtual clock; parsing of the error's "
+                "Debug text. The bucket-aligned-window corollary is a consequence not separately stated in Coq yet.",
+        "technique": "Coq proof (world/ghost refinement invariant + C02 window theorem) + correspondence by vm_compute",
+    },
+    "C04": {
+        "text": "Theorem C04_accounting (Props/C04.v) over the World model: for every configuration, rule set "
+                "(flow, isolation, and an arbitrary extra blocking slot standing for any other family), and every "
+                "history of builds on any resources (inbound/outbound, any batch), exits in any order, clock "
+                "advances and reads: no command panics, every build is answered by admit xor block, and every read "
+                "of a resource node or the inbound node (in-flight, pass, block, complete, rt sums) equals what the "
+                "outcomes imply (batch counts, rt = exit time - build time, blocked entries change neither "
+                "in-flight nor completions, inbound mirrors inbound entries only).",
+        "design_ref": "DESIGN.md §6 C04",
+        "note": "Trusted: as C01. Exiting an entry twice and the hotspot / breaker statistic slots are outside "
+                "this model (they are no-ops without their rules).",
+        "technique": "Coq proof (world/ghost refinement invariant, induction over the history) + correspondence by vm_compute",
+    },
 }
 
 REASON_TODO = "not yet covered by the Coq development in this revision (planned, see DESIGN.md §6); no check is claimed"
@@ -92,7 +121,7 @@ def main():
 
 
 NA = {}
-HOOK_COMMITS = ["28ce0b4", "ef616a0"]
+HOOK_COMMITS = ["28ce0b4", "ef616a0", "1b90b9f"]
 
 if __name__ == "__main__":
     main()
